@@ -43,6 +43,9 @@ def classify(sig, e, events, line, rej=None):
             cor = x
     nshards = len({r["shard"] for r in cor["repos"]}) if cor else 1
     if sig in ("C22:not-ranked-prefix", "C22:file-not-prefix", "C22:stopped-early") and e["ev"] == "display":
+        if e.get("flush"):
+            # StreamSearch with FlushWallTime: collected and ranked before the truncation (not the recorded C22-F2 path)
+            return sig + ":stream-flush"
         return sig + (":multi-shard" if nshards > 1 else ":single-shard")
     if sig == "C22:chunk" and e["ev"] == "display" and e["maxmatch"] > 0:
         # Shapes of the two recorded defects of limitChunkMatches (anything else stays a new violation):
